@@ -5,6 +5,7 @@ import (
 	"errors"
 	"fmt"
 	"net"
+	"sync/atomic"
 	"time"
 
 	"github.com/anacrolix/dht/v2"
@@ -300,14 +301,23 @@ func c19run(c *evid.Ctx, r *gen.Rand, run int) {
 	}
 	defer n2.Close()
 	n2.Conn.SetHook(swarm.hook(n2))
+	var tried atomic.Int64 // addresses the lookup reports having tried (-1: not reported)
 	ops := map[string]func(){
-		"Bootstrap": func() { n2.S.Bootstrap() },
+		"Bootstrap": func() {
+			st, err := n2.S.Bootstrap()
+			tried.Store(-1)
+			if err == nil {
+				tried.Store(int64(st.NumAddrsTried))
+			}
+		},
 		"Announce": func() {
+			tried.Store(-1)
 			a, err := n2.S.Announce(r.ID(), 6881, false)
 			if err == nil {
 				for range a.Peers {
 				}
 				<-a.Finished()
+				tried.Store(int64(a.NumContacted()))
 			}
 		},
 		"getput.Get": func() {
@@ -338,6 +348,22 @@ func c19run(c *evid.Ctx, r *gen.Rand, run int) {
 		sent := n2.Conn.NumCaptured() - mark
 		c.Count("traversal datagrams inspected", sent)
 		c.Distinct(gen.Hash64("trav", name, passive))
+		if name == "Bootstrap" || name == "Announce" {
+			// What the lookup says it tried must be what reached the socket: an attempt on a blocked
+			// address is refused before the socket, but it is still the lookup querying it.
+			dests := map[string]bool{}
+			for _, d := range n2.Conn.Captured(mark) {
+				if m, err := benc.DecodeDict(d.B); err == nil && m["y"] == "q" && (m["q"] == "find_node" || m["q"] == "get_peers") {
+					dests[d.To.String()] = true
+				}
+			}
+			if t := tried.Load(); t >= 0 && int(t) != len(dests) {
+				c.Violation("lookup-tried-addresses-that-never-reached-the-socket:"+name, fmt.Sprintf("%s: %s reports %d addresses tried, %d distinct destinations were written to (the network names blocked addresses)", desc, name, t, len(dests)), nil)
+			}
+			c.Count("lookups whose tried-count was compared with the socket", 1)
+		} else {
+			tried.Store(-1)
+		}
 		for _, d := range n2.Conn.Captured(mark) {
 			if covered(d.To) {
 				c.Violation("datagram-sent-to-blocked-address:"+name, fmt.Sprintf("%s: %s wrote %q to %v", desc, name, truncBytes(d.B), d.To), nil)
